@@ -60,6 +60,8 @@ class Point(tuple[int | None, int | None]):
         return self * other
 
     def __neg__(self) -> Point:
+        if self[1] is None:
+            return self  # the point at infinity is its own inverse
         """Unary negation"""
         return self.__class__(self[0], self._curve.p() - self[1], self._curve)  # type: ignore[operator]
 
